@@ -37,6 +37,14 @@ func c05Family(alg string) string {
 }
 
 func c05Enumerate(tier string, yield func(any)) {
+	// one certificate context keyed twice (cert package interface): every ordered pair over six key types
+	for _, a := range []string{"P-256", "P-384", "brainpoolP256r1", "brainpoolP384t1", "RSA-1024", "RSA-2048"} {
+		for _, b := range []string{"P-256", "P-384", "brainpoolP256r1", "brainpoolP384t1", "RSA-1024", "RSA-2048"} {
+			if a != b {
+				yield(&c05Case{Role: "rekey", KeyAlg: a, Second: b})
+			}
+		}
+	}
 	// one body signed twice through the generator API: every ordered pair of signature algorithms on an EC and an RSA key
 	for _, k := range []string{"P-256", "RSA-2048", "brainpoolP384r1"} {
 		for _, a := range refx509.SigAlgNames {
@@ -132,8 +140,60 @@ func c05Resign(x *engine.Ctx, c *c05Case) {
 	x.Outcome("resigned")
 }
 
+// c05Rekey: one certificate context is given a key and then another one (cert package interface); the
+// certificate signed afterwards names the algorithm and curve of the key it carries.
+func c05Rekey(x *engine.Ctx, c *c05Case) {
+	subj, _ := config.ParseRDNSequence("CN=rekey")
+	ctx := cert.NewCertificateContext(subj, nil, fixedTime(2020), fixedTime(2030))
+	var last *refx509.PrivateKey
+	for _, alg := range []string{c.KeyAlg, c.Second} {
+		pf, err := cert.ReadPem(FixtureKeyPEM(FixtureForAlg(alg, 0)))
+		if err != nil || pf.PrivateKey == nil {
+			x.Cap(fmt.Sprintf("fixture key unreadable: %v", err))
+			return
+		}
+		if err := ctx.SetPrivateKey(pf.PrivateKey); err != nil {
+			x.Violation("C05/rekey/set-key-failed", fmt.Sprintf("%s: %v", alg, err))
+			return
+		}
+		last, _ = refx509.ParsePKCS8(FixtureKeyDER(FixtureForAlg(alg, 0)))
+	}
+	ctx.SetIssuer(cert.AsIssuer(*ctx))
+	x.Nontrivial(fmt.Sprintf("rekey %s %s", c.KeyAlg, c.Second))
+	sig := cert.ECDSAwithSHA256
+	if c05Family(c.Second) == "RSA" {
+		sig = cert.RSAwithSHA256
+	}
+	crt, err := ctx.Sign(sig)
+	if err != nil || crt == nil {
+		x.Violation("C05/rekey/sign-failed", fmt.Sprintf("%s then %s: %v", c.KeyAlg, c.Second, err))
+		return
+	}
+	der, err := asn1.Marshal(*crt)
+	if err != nil {
+		x.Violation("C05/rekey/unencodable", err.Error())
+		return
+	}
+	cc, err := refx509.ParseCert(der)
+	if err != nil {
+		x.Violation("C05/rekey/undecodable", err.Error())
+		return
+	}
+	if last != nil && !bytes.Equal(cc.SPKIRaw, refx509.SPKIFor(last)) {
+		x.Violation("C05/rekey/spki", fmt.Sprintf("context keyed with %s, then with %s: SubjectPublicKeyInfo is %x, the key it carries is described by %x", c.KeyAlg, c.Second, cc.SPKIRaw, refx509.SPKIFor(last)))
+	}
+	if err := cc.VerifyUnder(cc); err != nil {
+		x.Violation("C05/rekey/does-not-verify", fmt.Sprintf("%s then %s: %v", c.KeyAlg, c.Second, err))
+	}
+	x.Outcome("rekeyed")
+}
+
 func c05Exec(x *engine.Ctx, cc any) {
 	c := cc.(*c05Case)
+	if c.Role == "rekey" {
+		c05Rekey(x, c)
+		return
+	}
 	if c.Role == "resign" {
 		c05Resign(x, c)
 		return
@@ -228,7 +288,7 @@ func init() {
 	register(&engine.Check{
 		ID:          "C05",
 		Level:       "exploration",
-		Rule:        "15 keyAlgorithm values (14 names + omitted) x 9 signatureAlgorithm values (8 + omitted) for self-signed roots and for subordinates under an issuer of each of the 14 key types (issuer key from fixtures); gopki generates the entity's key except for the slow RSA sizes where a fixture key is imported (RSA-4096 generated once per role in quick, RSA-8192 only in thorough). Oracle: PKCS#8 block decodes to exactly that modulus length / curve, SPKI names it and carries the private key's public key, signature algorithm OID = configured or SHA-256 with the entity's own key family. non-trivial = distinct fitting combination that produced a certificate; through the generator API one certificate body signed twice (every ordered pair of the 8 signature algorithms on a P-256, a brainpoolP384r1 and an RSA-2048 key, a first attempt with an algorithm of the other family failing): every certificate names, inside and outside, the algorithm it was asked for and verifies",
+		Rule:        "15 keyAlgorithm values (14 names + omitted) x 9 signatureAlgorithm values (8 + omitted) for self-signed roots and for subordinates under an issuer of each of the 14 key types (issuer key from fixtures); gopki generates the entity's key except for the slow RSA sizes where a fixture key is imported (RSA-4096 generated once per role in quick, RSA-8192 only in thorough). Oracle: PKCS#8 block decodes to exactly that modulus length / curve, SPKI names it and carries the private key's public key, signature algorithm OID = configured or SHA-256 with the entity's own key family. non-trivial = distinct fitting combination that produced a certificate; through the generator API one certificate body signed twice (every ordered pair of the 8 signature algorithms on a P-256, a brainpoolP384r1 and an RSA-2048 key, a first attempt with an algorithm of the other family failing): every certificate names, inside and outside, the algorithm it was asked for and verifies; one certificate context keyed twice through the cert package (30 ordered pairs over six key types): the SubjectPublicKeyInfo describes the key the certificate carries",
 		Bound:       map[string]string{"grid": "15 x 9 x (1 + 14 issuers)"},
 		Assumptions: []string{"combinations whose signature algorithm does not fit the signing key must fail (C01) and are only counted here"},
 		Budget:      budgets(quickBudget, thoroughBudget),
